@@ -238,6 +238,19 @@ func SameOutcome(a, b *RunResult) []string {
 	return bad
 }
 
+// Accepted counts the transactions DeliverTx accepted (code 0) by kind.
+func (res *RunResult) Accepted() map[string]int {
+	out := map[string]int{}
+	for _, b := range res.Blocks {
+		for _, t := range b.Txs {
+			if t.Deliver.Code == 0 {
+				out[t.Kind]++
+			}
+		}
+	}
+	return out
+}
+
 // History renders the chain for a report: one line per transaction (empty blocks are left out).
 func (res *RunResult) History() string {
 	var b bytes.Buffer
